@@ -93,8 +93,20 @@ pub broadcast proof fn axiom_instant_sub(a: Instant, b: Instant)
 pub broadcast group group_instant_axioms { axiom_instant_add, axiom_instant_obeys_add, axiom_instant_obeys_sub, axiom_instant_obeys_cmp, axiom_instant_cmp, axiom_instant_sub }
 
 // ---- converter ----
+// `sort` leaves a permutation of the elements that is ascending in the order `Ord` defines (std documentation). `ord_leq::<T>` stands for that order;
+// that it is a total order consistent with `==` is assumed for KeyCode only (derived Ord/Eq on a field-less enum with distinct discriminants).
+pub uninterp spec fn ord_leq<T>(a: T, b: T) -> bool;
+pub open spec fn ord_leq_fn<T>() -> spec_fn(T, T) -> bool { |a: T, b: T| ord_leq::<T>(a, b) }
 pub assume_specification<T: Ord> [ <[T]>::sort ] (s: &mut [T])
-  ensures final(s)@.len() == old(s)@.len();
+  ensures final(s)@.len() == old(s)@.len(),
+    vstd::relations::sorted_by(final(s)@, ord_leq_fn::<T>()),
+    final(s)@.to_multiset() == old(s)@.to_multiset();
+//#if key_codes
+#[verifier::external_body]
+pub proof fn axiom_keycode_total_order()
+  ensures vstd::relations::total_ordering(ord_leq_fn::<KeyCode>())
+{}
+//#endif
 pub assume_specification<'a> [<std::str::Chars<'a> as std::iter::Iterator>::count] (c: std::str::Chars<'a>) -> usize;
 // Vec::extend over references to Copy values appends copies of the items the argument yields, in order (std documentation of `Extend<&'a T> for Vec<T>`);
 // what a `&Vec<T>` yields is its elements in order (axiom_ext_items_vec). Both are ASSUMED.
